@@ -1,7 +1,9 @@
 import Driver.Proto
 import SpsdkVerif.Crypto.Exec
+import SpsdkVerif.Model.SymWrappers
 open SpsdkVerif Driver
 open SpsdkVerif.Crypto
+open SpsdkVerif.SymWrappers
 
 def optHex : Option Bytes → String
   | some b => "ok:" ++ toHex b
@@ -54,9 +56,88 @@ def stepRef : List String → Option String
     pure s!"ok:{Crc.crc ⟨w, poly, init, xo, ri, ro⟩ d}"
   | _ => none
 
+def parseOptHex (s : String) : Option (Option Bytes) :=
+  if s == "none" then some none else (parseHex s).map some
+
+def parseOptInt (s : String) : Option (Option Int) :=
+  if s == "none" then some none else (parseInt s).map some
+
+def parseMode (s : String) : Option KdfMode :=
+  if s == "kdk" then some .kdk else if s == "blk" then some .blk else none
+
+def counterRun (cn : Counter) : List Int → List String
+  | [] => [toHex cn.value]
+  | v :: rest => toHex cn.value :: counterRun (cn.increment v) rest
+
+/-- the model of SPSDK's wrappers (Model/SymWrappers.lean) instantiated with the executable primitives -/
+def stepWrap : List String → Option String
+  | ["w_kw_wrap", k, p] => do let k ← parseHex k; let p ← parseHex p; pure (resLine toHex (aesKeyWrap c k p))
+  | ["w_kw_unwrap", k, p] => do let k ← parseHex k; let p ← parseHex p; pure (resLine toHex (aesKeyUnwrap c k p))
+  | ["w_ecb_enc", k, m] => do let k ← parseHex k; let m ← parseHex m; pure (resLine toHex (aesEcbEncrypt c k m))
+  | ["w_ecb_dec", k, m] => do let k ← parseHex k; let m ← parseHex m; pure (resLine toHex (aesEcbDecrypt c k m))
+  | ["w_cbc_enc", k, m, iv] => do
+    let k ← parseHex k; let m ← parseHex m; let iv ← parseOptHex iv; pure (resLine toHex (aesCbcEncrypt c k m iv))
+  | ["w_cbc_dec", k, m, iv] => do
+    let k ← parseHex k; let m ← parseHex m; let iv ← parseOptHex iv; pure (resLine toHex (aesCbcDecrypt c k m iv))
+  | ["w_sm4_enc", k, m, iv] => do
+    let k ← parseHex k; let m ← parseHex m; let iv ← parseOptHex iv; pure (resLine toHex (sm4CbcEncrypt c k m iv))
+  | ["w_sm4_dec", k, m, iv] => do
+    let k ← parseHex k; let m ← parseHex m; let iv ← parseOptHex iv; pure (resLine toHex (sm4CbcDecrypt c k m iv))
+  | ["w_ctr", k, m, n] => do
+    let k ← parseHex k; let m ← parseHex m; let n ← parseHex n; pure (resLine toHex (aesCtr c k m n))
+  | ["w_xts_enc", k, m, t] => do
+    let k ← parseHex k; let m ← parseHex m; let t ← parseHex t; pure (resLine toHex (aesXtsEncrypt c k m t))
+  | ["w_xts_dec", k, m, t] => do
+    let k ← parseHex k; let m ← parseHex m; let t ← parseHex t; pure (resLine toHex (aesXtsDecrypt c k m t))
+  | ["w_ccm_enc", k, m, n, a, t] => do
+    let k ← parseHex k; let m ← parseHex m; let n ← parseHex n; let a ← parseHex a; let t ← parseInt t
+    pure (resLine toHex (aesCcmEncrypt c k m n a t))
+  | ["w_ccm_dec", k, m, n, a, t] => do
+    let k ← parseHex k; let m ← parseHex m; let n ← parseHex n; let a ← parseHex a; let t ← parseInt t
+    pure (resLine toHex (aesCcmDecrypt c k m n a t))
+  | ["w_cmac", k, m] => do let k ← parseHex k; let m ← parseHex m; pure (resLine toHex (cmacW c k m))
+  | ["w_cmac_validate", k, m, s] => do
+    let k ← parseHex k; let m ← parseHex m; let s ← parseHex s; pure (resLine boolStr (cmacValidate c k m s))
+  | ["w_hmac", a, k, m] => do
+    let a ← HashAlg.ofName? a; let k ← parseHex k; let m ← parseHex m; pure ("ok:" ++ toHex (hmacW c a k m))
+  | ["w_hmac_validate", a, k, m, s] => do
+    let a ← HashAlg.ofName? a; let k ← parseHex k; let m ← parseHex m; let s ← parseHex s
+    pure ("ok:" ++ boolStr (hmacValidate c a k m s))
+  | ["w_hkdf", salt, ikm, info, len] => do
+    let salt ← parseHex salt; let ikm ← parseHex ikm; let info ← parseHex info; let len ← parseNat len
+    pure (resLine toHex (hkdfW c salt ikm info len))
+  | ["w_hash", a, m] => do let a ← HashAlg.ofName? a; let m ← parseHex m; pure ("ok:" ++ toHex (getHash c a m))
+  | ["w_hash_int", a, v] => do
+    let a ← HashAlg.ofName? a; let v ← parseInt v; pure ("ok:" ++ toHex (getHash c a (updateIntBytes v)))
+  | ["w_crc", name, d] => do let d ← parseHex d; pure (resLine toString (crcCalculate name d))
+  | ["w_crc_verify", name, d, v] => do
+    let d ← parseHex d; let v ← parseNat v; pure (resLine boolStr (crcVerify name d v))
+  | ["w_ks_hmac", k] => do let k ← parseHex k; pure (resLine toHex (deriveHmacKey c k))
+  | ["w_ks_enc_image", k] => do let k ← parseHex k; pure (resLine toHex (deriveEncImageKey c k))
+  | ["w_ks_sbkek", k] => do let k ← parseHex k; pure (resLine toHex (deriveSbKekKey c k))
+  | ["w_ks_otfad", k, i] => do let k ← parseHex k; let i ← parseHex i; pure (resLine toHex (deriveOtfadKekKey c k i))
+  | ["w_kdf_data", dc, r, mode, kl, it] => do
+    let dc ← parseInt dc; let r ← parseInt r; let mode ← parseMode mode; let kl ← parseInt kl; let it ← parseInt it
+    pure (resLine toHex (kdfData dc r mode kl it))
+  | ["w_derive_kdk", k, ts, kl, r] => do
+    let k ← parseHex k; let ts ← parseInt ts; let kl ← parseInt kl; let r ← parseInt r
+    pure (resLine toHex (deriveKdk c k ts kl r))
+  | ["w_derive_blk", k, bn, kl, r] => do
+    let k ← parseHex k; let bn ← parseInt bn; let kl ← parseInt kl; let r ← parseInt r
+    pure (resLine toHex (deriveBlockKey c k bn kl r))
+  | "w_counter" :: nonce :: cv :: little :: incs => do
+    let nonce ← parseHex nonce; let cv ← parseOptInt cv; let little ← parseBool little
+    let incs ← incs.mapM parseInt
+    match Counter.new nonce cv little with
+    | .error e => pure e.tag
+    | .ok cn => pure ("ok:" ++ ",".intercalate (counterRun cn incs))
+  | _ => none
+
 def step (t : List String) : String :=
   match stepRef t with
   | some s => s
-  | none => "bad-op"
+  | none => match stepWrap t with
+    | some s => s
+    | none => "bad-op"
 
 def main : IO Unit := Driver.loop step
